@@ -169,6 +169,11 @@ func c18Client(res *vlib.Result, path string, remote bool, peer string, variant 
 		}
 		clientResult = (&wireReader{b: m}).int()
 		mid = takeSnap(e.roots()...)
+		if variant == "close-after-answer" {
+			// the verdict never arrives: the server hangs up right after reading the answer
+			se.Close()
+			return
+		}
 		ans := int64(0)
 		if variant == "answer-fail" {
 			ans = -1
@@ -384,7 +389,7 @@ func c18Paths(peer string, thorough bool) []string {
 func C18Plan() *vlib.Plan {
 	p := &vlib.Plan{
 		Property: "C18", Level: "exploration", Workers: 1, Quiet: true,
-		Rule:   "E-ENUM in a private mount namespace (fresh tmpfs on /tmp): paths = base in {/tmp, /tmp/, //tmp, /tmp/., /tmp/../tmp, /var/tmp, /tmp/sub, /tmp/link (symlink to a decoy dir), tmp, ''} x leaf in {recognised and near-miss names, '.', '..', traversal, control and non-ASCII bytes, 5000 chars, remote forms, address forms over 12 ip spellings (the peer's own, other v4 / v6 hosts, equivalent long and v4-mapped spellings, a host name, a bracketed form) x 5 ports} (+ every single-character mutation of two accepted paths in thorough) x peer address {v4, v6} x {local, remote} x scripted server {answers 0, answers -1, closes after the path, trailing bytes}; recursive snapshots of /tmp + scratch CWD + decoy dirs before / when the server holds the client's answer / after. Oracle: independent path validator written from the statement; at most one directory, only for acceptable paths, mode 0700, answer 0 iff created, snapshot restored afterwards, client nil iff server answered 0. Server half against {nothing, dir 0700, dir 0755, dir of another uid, dir with a sub-directory, regular file, symlink to dir / file, fifo}. Non-trivial = every exchange (distinct by construction).",
+		Rule:   "E-ENUM in a private mount namespace (fresh tmpfs on /tmp): paths = base in {/tmp, /tmp/, //tmp, /tmp/., /tmp/../tmp, /var/tmp, /tmp/sub, /tmp/link (symlink to a decoy dir), tmp, ''} x leaf in {recognised and near-miss names, '.', '..', traversal, control and non-ASCII bytes, 5000 chars, remote forms, address forms over 12 ip spellings (the peer's own, other v4 / v6 hosts, equivalent long and v4-mapped spellings, a host name, a bracketed form) x 5 ports} (+ every single-character mutation of two accepted paths in thorough) x peer address {v4, v6} x {local, remote} x scripted server {answers 0, answers -1, closes after the path, closes after reading the client's answer (no verdict), trailing bytes}; recursive snapshots of /tmp + scratch CWD + decoy dirs before / when the server holds the client's answer / after. Oracle: independent path validator written from the statement; at most one directory, only for acceptable paths, mode 0700, answer 0 iff created, snapshot restored afterwards, client nil iff server answered 0. Server half against {nothing, dir 0700, dir 0755, dir of another uid, dir with a sub-directory, regular file, symlink to dir / file, fifo}. Non-trivial = every exchange (distinct by construction).",
 		Assume: []string{"runs inside `unshare -m` with a tmpfs on /tmp when available (evidence field namespace); as root"},
 	}
 	p.Gen = func(tier string, yield func(vlib.Case)) {
@@ -394,7 +399,7 @@ func C18Plan() *vlib.Plan {
 		for _, peer := range []string{"10.2.2.2:9618", "[fd00::2]:9618"} {
 			paths := c18Paths(peer, thorough)
 			for _, remote := range []bool{false, true} {
-				for _, variant := range []string{"answer-ok", "answer-fail", "close-after-path", "trailing"} {
+				for _, variant := range []string{"answer-ok", "answer-fail", "close-after-path", "close-after-answer", "trailing"} {
 					if variant != "answer-ok" && !thorough && peer != "10.2.2.2:9618" {
 						continue
 					}
